@@ -1280,12 +1280,18 @@ pub fn explore_session(
     bound: usize,
     budget: u64,
     found: &mut Vec<Found>,
+    tick: &mut dyn FnMut(),
 ) -> Result<ExploreStats, String> {
     let mut outcomes: std::collections::HashSet<u64> = std::collections::HashSet::new();
     let mut err: Option<String> = None;
+    let mut n = 0u64;
     let st = crate::engine::devdfs::explore(bound, budget, |c| {
         if err.is_some() {
             return false;
+        }
+        n += 1;
+        if n % 500 == 0 {
+            tick(); // liveness for the parent's stall detector
         }
         let ch = c.take();
         let o = match execute(session, upto, ch, false) {
